@@ -33,21 +33,30 @@ def dispatch (op : String) (args : List Sx) (impl : Sx) : Option Outcome :=
 /-- C05 oracle on the IMPLEMENTATION's answer: if it is a diagram, is it (deeply) well-formed, and
     does it have the same source/target type as the model's answer? -/
 def wfType (model impl : Sx) : String :=
-  match unOk impl with
-  | some x =>
-    match (dec x : Option F), (dec x : Option LF) with
-    | some f, _ =>
-      let ty := match (unOk model).bind (dec (α := F)) with
-        | some m => if m.source.isOk && (enc m.source == enc f.source) && (enc m.target == enc f.target) then "ok" else "bad"
-        | none => "na"
-      s!"wf={if f.wf then "ok" else "bad"} type={ty}"
-    | _, some f =>
-      let ty := match (unOk model).bind (dec (α := LF)) with
-        | some m => if (enc m.source == enc f.source) && (enc m.target == enc f.target) then "ok" else "bad"
-        | none => "na"
-      s!"wf={if f.wf then "ok" else "bad"} type={ty}"
-    | _, _ => "wf=na type=na"
-  | none => "wf=na type=na"
+  -- the diagram inside an answer: the answer itself, or the first component of a pair
+  let diagOf := fun (x : Sx) => match (dec x : Option F), (dec x : Option LF) with
+    | some f, _ => some (Sum.inl f)
+    | _, some f => some (Sum.inr f)
+    | _, _ => match x with
+      | .l [a, _] => (match (dec a : Option F), (dec a : Option LF) with
+        | some f, _ => some (Sum.inl f)
+        | _, some f => some (Sum.inr f)
+        | _, _ => none)
+      | _ => none
+  let md := (unOk model).bind diagOf
+  let mdiag := if md.isSome then "yes" else "no"
+  match (unOk impl).bind diagOf with
+  | some (Sum.inl f) =>
+    let ty := match md with
+      | some (Sum.inl m) => if m.source.isOk && (enc m.source == enc f.source) && (enc m.target == enc f.target) then "ok" else "bad"
+      | _ => "na"
+    s!"wf={if f.wf then "ok" else "bad"} type={ty} mdiag={mdiag}"
+  | some (Sum.inr f) =>
+    let ty := match md with
+      | some (Sum.inr m) => if (enc m.source == enc f.source) && (enc m.target == enc f.target) then "ok" else "bad"
+      | _ => "na"
+    s!"wf={if f.wf then "ok" else "bad"} type={ty} mdiag={mdiag}"
+  | none => s!"wf=na type=na mdiag={mdiag}"
 
 def verdictLine (line : String) : String :=
   match Sx.parseLine line with
